@@ -26,7 +26,7 @@ POOL_MAX = 8
 HOST_POOL = ["h", "H", "h.example", "a b", "a_b", "a\\b", "пример", "ПРИМЕР", "☃.NET", "127.0.0.1", "[::1]", "[0:0::1]", "[fe80::1%eth0]", "xn--n3h", "a%41", "ex ample"]
 TEXT_POOL = ["", "a", "A", "a b", "a%20b", "%41", "a/b", "a+b", "é", "%C3%A9", "k=v", "k=v&k=w", "x#y", "?", ".", "..", "%2F", "u:p", "@",
              # halves of multi-byte escape runs and dangling '%': hidden state carried from one call into the next would join them
-             "%E2%82", "%AC", "%C3", "%A9", "x%E2", "%82%ACy", "%F0%9F", "%98%80", "%", "a%", "41", "%4", "1"]
+             "..profile", "...rc", "..%D1%84", ".a.b", "%E2%82", "%AC", "%C3", "%A9", "x%E2", "%82%ACy", "%F0%9F", "%98%80", "%", "a%", "41", "%4", "1"]
 
 
 def txt():
@@ -42,7 +42,8 @@ def ctor_strategy():
         gen.url_string(txt(), hosts=hosts()).map(lambda s: ["str", s]),
         st.sampled_from(["http://h", "http://h/", "http://H:80/", "//:77", "//u@:0", "http://h/a b", "http://h/a%20b", "http://[::1]/", "/a/b", "a", "", "http://h/?k=v", "http://a b/", "http://h/a/%E2%82", "http://h/b/%AC", "http://h/%", "http://h/41?%#%"]).map(lambda s: ["str", s]),
         gen.url_string(txt(), hosts=hosts()).map(lambda s: ["enc", s]),
-        st.sampled_from(["http://h", "http://h/a b", "//:77", "http://H/"]).map(lambda s: ["enc", s]),
+        st.sampled_from(["http://h", "http://h/a b", "//:77", "http://H/", "http://h:99999/", "http://u:p@h:http/p", "http://h:80:80/", "//[::1]:x", "http://h:080/",
+                         "http://h/..profile", "http://h/a/...rc"]).map(lambda s: ["enc", s]),
         prog.build_kwargs(txt(), hosts()).map(lambda kw: ["build", kw]),
     )
 
